@@ -208,6 +208,28 @@ prop(
     explanation="",
 )
 
+prop(
+    "C06",
+    contract_modules=["contracts.c06"],
+    bcc="c06",
+    level="other",
+    claimed=False,
+    trusted=["sympy.expand (polynomial normal form)", "numpy.array-model"],
+    assumptions=["DirectSolve returns the largest real root of the quartic (assumed contract; bounded check only)", "spectral theorem: max of q^T K q over unit q is the largest eigenvalue"],
+    explanation="",
+)
+
+prop(
+    "C09",
+    contract_modules=["contracts.c09"],
+    bcc="c09",
+    level="other",
+    claimed=False,
+    trusted=["numpy.object-arrays"],
+    assumptions=["compute_distances(periodic=True) returns minimum-image distances (contract of C05)"],
+    explanation="",
+)
+
 # ---- stubs (filled in as the contracts are written) -------------------------------------------
 _BOUNDED_TEXT = ("Bounded contract check only at this commit: the property's contracts are evaluated at run time on the real code over the "
                  "enumerated input space stated in evidence (coverage.bounded); labelled bounded, nothing is counted as proved. "
